@@ -838,6 +838,11 @@ func (d *Decoder) decodeSliceTo(v reflect.Value) error {
 		}
 	}
 
+	// An empty list decodes to an empty slice, not to a nil one (which is what null decodes to).
+	if i == 0 && v.Kind() == reflect.Slice && v.IsNil() {
+		v.Set(reflect.MakeSlice(v.Type(), 0, 0))
+	}
+
 	return nil
 }
 
